@@ -274,7 +274,11 @@ pub fn check_decode_bytes(ctx: &Ctx, which: &str, bytes: &[u8], trusted: &[[u8; 
         }
     }
     // the harness copy (len + 64 KiB) is itself below the limit
-    if max > MAX_ALLOC {
+    // "oversized" = out of proportion to the input (a length field turned into an allocation). The in-memory form of
+    // a decoded value is legitimately larger than its wire form by a constant factor (an empty peer entry is 1 byte on
+    // the wire and 168 bytes in memory, so 2000 of them need a 336 KiB vector): the limit is 256 KiB or 512 bytes per
+    // input byte, whichever is larger.
+    if max > MAX_ALLOC.max(bytes.len() * 512) {
         out.push(Viol::new(
             format!("{}-decode-oversized-allocation", which),
             format!("{} decoder requested {} bytes at once for a {}-byte input", which, max, bytes.len()),
